@@ -1,4 +1,5 @@
 import RV.C02.Props
+import RV.C02.PropsConc
 open RV.C02
 #print axioms api_outputs_are_observations
 #print axioms ds_refine_history
@@ -16,3 +17,11 @@ open RV.C02
 #print axioms default_union_switch
 #print axioms prefix_empty_graph_falls_back
 #print axioms prefix_graphs_of_triple_lists_default
+#print axioms conc_refines_abstract
+#print axioms conc_answers_agree
+#print axioms conc_api_outputs_are_observations
+#print axioms conc_refine_history
+#print axioms conc_isolation
+#print axioms conc_shared_triple_survives
+#print axioms conc_union_view_and_empty
+#print axioms conc_graph_lifecycle
